@@ -156,7 +156,15 @@ impl<'de> Deserialize<'de> for Ident {
     where
         D: Deserializer<'de>,
     {
-        <Vec<String> as Deserialize>::deserialize(deserializer).map(Ident::from_path)
+        let path = <Vec<String> as Deserialize>::deserialize(deserializer)?;
+        if path.is_empty() {
+            // `from_path` panics on an empty path; a document is input, not an invariant
+            return Err(<D::Error as serde::de::Error>::invalid_length(
+                0,
+                &"a non-empty array of strings",
+            ));
+        }
+        Ok(Ident::from_path(path))
     }
 }
 
